@@ -197,7 +197,7 @@ func (c *c10Case) cfgWire() string {
 
 func (c *c10Case) optTags() []string {
 	t := []string{fmt.Sprintf("opts-%d", c10Min(len(c.Opts), 8))}
-	seenFlag, rangeFirst, repeated := map[int]bool{}, false, false
+	seenFlag, rangeFirst, repeated, sameTwice := map[int]bool{}, false, false, false
 	nr := 0
 	for i, o := range c.Opts {
 		if o.K == 3 {
@@ -211,6 +211,11 @@ func (c *c10Case) optTags() []string {
 		}
 		if seenFlag[o.K] {
 			repeated = true
+			for _, p := range c.Opts[:i] {
+				if p.K == o.K && p.V == o.V {
+					sameTwice = true
+				}
+			}
 		}
 		seenFlag[o.K] = true
 	}
@@ -222,6 +227,9 @@ func (c *c10Case) optTags() []string {
 	}
 	if repeated {
 		t = append(t, "opts-flag-repeated")
+	}
+	if sameTwice {
+		t = append(t, "opts-same-option-twice")
 	}
 	if nr > 2 {
 		t = append(t, "opts-many-ranges")
@@ -327,6 +335,11 @@ func c10Run(ci any) (res Result) {
 	}
 	opts, nets := c.options()
 	ext := c10Extractor(c.Ext, opts)
+	// the options are applied when the extractor is constructed: what the application does with its option
+	// slice afterwards (reuse for another extractor with other values) must not reach this one
+	for i := range opts {
+		opts[i] = []echo.TrustOption{echo.TrustLoopback(false), echo.TrustLinkLocal(false), echo.TrustPrivateNet(false), echo.TrustPrivateNet(true)}[i%4]
+	}
 	e := echo.New()
 	e.IPExtractor = ext
 	// a context taken from the pool and one created directly while the FIRST extractor is installed; both
@@ -617,6 +630,11 @@ func c10RunConcurrent(c *c10Case) Result {
 	}
 	opts, nets := c.options()
 	ext := c10Extractor(c.Ext, opts)
+	// the options are applied when the extractor is constructed: what the application does with its option
+	// slice afterwards (reuse for another extractor with other values) must not reach this one
+	for i := range opts {
+		opts[i] = []echo.TrustOption{echo.TrustLoopback(false), echo.TrustLinkLocal(false), echo.TrustPrivateNet(false), echo.TrustPrivateNet(true)}[i%4]
+	}
 	e := echo.New()
 	e.IPExtractor = ext
 	e.GET("/", func(ctx echo.Context) error { return ctx.String(http.StatusOK, ctx.RealIP()) })
@@ -1136,6 +1154,43 @@ func c10MkOpts(r *rand.Rand, lb, ll, pn bool, nets []c10Net) []c10Opt {
 		return o
 	}
 	var out []c10Opt
+	if r.Intn(4) == 0 {
+		// the same option 2, 3 or 4 times ("base options" + "deployment options" appended): each flag gets a
+		// sequence of values whose LAST one is the configured value — equal values repeated (false, false),
+		// (false, false, false), (true, true) as well as changing ones (false, true, false); ranges repeated too
+		for _, f := range flags {
+			n := 1 + r.Intn(4)
+			for i := 0; i < n-1; i++ {
+				v := f.V
+				if r.Intn(3) == 0 {
+					v = !v
+				}
+				out = append(out, c10Opt{K: f.K, V: v})
+			}
+			out = append(out, f)
+		}
+		for _, n := range rng {
+			for k := 1 + r.Intn(3); k > 0; k-- {
+				out = append(out, n)
+			}
+		}
+		// keep the relative order of the options of one flag (the last value must stay last), mix the rest
+		if r.Intn(2) == 0 {
+			var keys [4][]c10Opt
+			for _, o := range out {
+				keys[o.K] = append(keys[o.K], o)
+			}
+			out = out[:0]
+			for len(keys[0])+len(keys[1])+len(keys[2])+len(keys[3]) > 0 {
+				k := r.Intn(4)
+				if len(keys[k]) > 0 {
+					out = append(out, keys[k][0])
+					keys[k] = keys[k][1:]
+				}
+			}
+		}
+		return out
+	}
 	switch r.Intn(8) {
 	case 0: // canonical: the three flags, then the ranges
 		out = append(append(out, flags...), rng...)
@@ -1682,7 +1737,7 @@ func c10Min(a, b int) int {
 func init() {
 	register(&Prop{
 		ID:             "C10",
-		Rule:           "(a) requests: extractor {direct, X-Real-IP, X-Forwarded-For} x all 8 trust-flag combinations x 0-5 (rarely 20/21) extra ranges (CIDR pool incl. ranges inside / straddling the built-in classes, random prefix lengths, 16-byte / mixed-length / non-contiguous IPNets), passed as an ORDERED option list: canonical, only the non-default flags (down to no option at all), ranges before flags, any interleaving, flags given twice with the last value counting x peers (RemoteAddr with ports, brackets, malformed) x X-Forwarded-For lists built as prefix ++ [untrusted or unparsable entry] ++ trusted suffix over 0-4 header lines with spaces (ASCII and Unicode), brackets, garbage, IPv4 / IPv6 / IPv4-mapped literals, plus free-form lists; every case also runs variants that differ only in attacker-controlled input (entries left of the decisive hop, headers of an untrusted peer) and requires the same result; each request goes through Context.RealIP and the extractor directly; a third of the cases continue with 1-12 unrelated requests (own reference reading each) through the same Echo instance and extractor closure and then repeat the base request; a fifth then REPLACE Echo.IPExtractor (mostly by a stricter one: direct, a class switched off, ranges dropped) and serve 1-5 more requests through the same Echo, also through a context acquired and one created by NewContext BEFORE the replacement. (c) concurrency: 30 (thorough 200) cases in which 8-16 goroutines issue a set of 3-12 requests with different chains 1500-4000 times each through ONE extractor value and ONE Echo (extractor calls and ServeHTTP mixed); every single answer must equal the property's reading for its own request. (b) classification tables: for every first octet and every (thorough) or boundary (quick) second octet the trust decision for b0.b1.0.1 and b0.b1.255.254 observed through both header extractors, under all-flags and single-flag configurations; structured IPv6 samples (every first byte x second-byte borders, ::1 neighbourhood, IPv4-mapped); tables around the borders of extra ranges. non-trivial = a request whose result differs from the peer or that ran relational variants, or a table containing both trusted and untrusted addresses; distinct = distinct model op lines",
+		Rule:           "(a) requests: extractor {direct, X-Real-IP, X-Forwarded-For} x all 8 trust-flag combinations x 0-5 (rarely 20/21) extra ranges (CIDR pool incl. ranges inside / straddling the built-in classes, random prefix lengths, 16-byte / mixed-length / non-contiguous IPNets), passed as an ORDERED option list: canonical, only the non-default flags (down to no option at all), ranges before flags, any interleaving, flags given twice with the last value counting, the SAME option 2-4 times with equal and with changing arguments, ranges repeated; the option slice is overwritten after the extractor was constructed x peers (RemoteAddr with ports, brackets, malformed) x X-Forwarded-For lists built as prefix ++ [untrusted or unparsable entry] ++ trusted suffix over 0-4 header lines with spaces (ASCII and Unicode), brackets, garbage, IPv4 / IPv6 / IPv4-mapped literals, plus free-form lists; every case also runs variants that differ only in attacker-controlled input (entries left of the decisive hop, headers of an untrusted peer) and requires the same result; each request goes through Context.RealIP and the extractor directly; a third of the cases continue with 1-12 unrelated requests (own reference reading each) through the same Echo instance and extractor closure and then repeat the base request; a fifth then REPLACE Echo.IPExtractor (mostly by a stricter one: direct, a class switched off, ranges dropped) and serve 1-5 more requests through the same Echo, also through a context acquired and one created by NewContext BEFORE the replacement. (c) concurrency: 30 (thorough 200) cases in which 8-16 goroutines issue a set of 3-12 requests with different chains 1500-4000 times each through ONE extractor value and ONE Echo (extractor calls and ServeHTTP mixed); every single answer must equal the property's reading for its own request. (b) classification tables: for every first octet and every (thorough) or boundary (quick) second octet the trust decision for b0.b1.0.1 and b0.b1.255.254 observed through both header extractors, under all-flags and single-flag configurations; structured IPv6 samples (every first byte x second-byte borders, ::1 neighbourhood, IPv4-mapped); tables around the borders of extra ranges. non-trivial = a request whose result differs from the peer or that ran relational variants, or a table containing both trusted and untrusted addresses; distinct = distinct model op lines",
 		New:            func() any { return &c10Case{} },
 		Gen:            c10Gen,
 		Run:            c10Run,
